@@ -148,7 +148,8 @@ class Unhashable:
 
 
 def hostile_atoms():
-    return [float("nan"), float("inf"), float("-inf"), 10**400, -(10**400), MyStr("a"), MyStr("1"), MyInt(1), MyFloat(1.5),
+    return [float("nan"), float("inf"), float("-inf"), 10**400, -(10**400), 10**5000,  # 10**5000: beyond the int -> str digit limit
+            MyStr("a"), MyStr("1"), MyInt(1), MyFloat(1.5),
             MyList([1]), MyDict({"a": 1}), (1, 2), (), b"ab", bytearray(b"a"), {1: "a"}, {1: "a", "b": "c"}, {None: 1}, {("t",): 1},
             {1, 2}, frozenset([1]), Unhashable(), object(), 1j, [Unhashable()], {"a": Unhashable()}, range(2), Ellipsis, int, "\ud800",
             [[]], [{}], {"": None}, -0.0, 1e308, True, 2**64]
